@@ -78,7 +78,8 @@ def build(cls, variant):
     i = L.Input((5,))
     y = QAdaptiveActivation("quantized_relu" if variant in ("fixed", "po2", "auto_axis") else "quantized_bits", 5,
                             ema_decay=0.5, quantization_delay=1,
-                            relu_upper_bound=0.75 if variant == "auto_axis" else None)(i)       # (a decay under which a few training calls move the statistics)
+                            relu_upper_bound=0.75 if variant == "auto_axis" else None,
+                            relu_neg_slope=0.25 if variant == "po2" else 0.0)(i)       # (a decay under which a few training calls move the statistics)
   elif cls == "QBatchNormalization":
     i = L.Input((5,))
     if none:
